@@ -143,13 +143,18 @@ fn median(mut price_list: Vec<Price>) -> Option<Price> {
     let sum = half_high
         .checked_add(half_low)
         .expect("can't fail as both operands are <= MAX/2");
-    // If `higher_price` and `lower_price` are both odd, we rounded down twice when halving them,
-    // so add 1 to the sum.
-    let median = if higher_price.get() % 2 == 1 && lower_price.get() % 2 == 1 {
-        sum.checked_add(Price::new(1))
-            .expect("can't fail as we rounded down twice while halving the prices")
-    } else {
-        sum
+    // Halving truncates towards zero. If `higher_price` and `lower_price` are both odd and of the
+    // same sign, we lost half a unit twice in the same direction when halving them, so give one
+    // unit back: add 1 if both are positive, subtract 1 if both are negative (the remainder of a
+    // negative odd number is -1). Without the latter the median of e.g. `[-3, -3]` would be `-2`.
+    let median = match (higher_price.get() % 2, lower_price.get() % 2) {
+        (1, 1) => sum
+            .checked_add(Price::new(1))
+            .expect("can't fail as we rounded down twice while halving the prices"),
+        (-1, -1) => sum
+            .checked_add(Price::new(-1))
+            .expect("can't fail as we rounded up twice while halving the prices"),
+        _ => sum,
     };
     Some(median)
 }
